@@ -96,6 +96,9 @@ M = [
     ("h_server_srv_local", "C12", "src/request.rs", "        if request_srv != expected_srv {", "        let matches = request_srv == expected_srv;\n        if !matches {", "harmless"),
     ("sc_recorder_not_cleared", "C17", "src/server.rs", "            self.stats_queue.force_push(clients);\n            self.stats_recorder.clear();", "            self.stats_queue.force_push(clients);", "break"),
     ("sc_snapshot_pushed_when_empty_cleared", "C17", "src/server.rs", "        if client_count > 0 {\n            self.stats_queue.force_push(clients);\n            self.stats_recorder.clear();\n        }", "        self.stats_recorder.clear();\n        if client_count > 0 {\n            self.stats_queue.force_push(clients);\n        }", "break"),
+    ("h_sign_inline_attr", "C13", "src/sign.rs", "    pub fn update(&mut self, data: &[u8]) {\n        self.buf.reserve(data.len());", "    #[inline]\n    pub fn update(&mut self, data: &[u8]) {\n        self.buf.reserve(data.len());", "harmless"),
+    ("h_merkle_must_use_doc", "C04", "src/merkle.rs", "    pub fn compute_root(&mut self) -> Hash {", "    /// Returns the root of the tree built from the leaves pushed so far.\n    #[must_use]\n    pub fn compute_root(&mut self) -> Hash {", "harmless"),
+    ("h_request_allow_attr", "C07", "src/request.rs", "pub fn nonce_from_request(", "#[allow(clippy::too_many_arguments)]\npub fn nonce_from_request(", "harmless"),
     # ---- harmless edits: must never give a VIOLATION ----
     ("h_msg_extra_capacity", "C05", "src/message.rs", "let mut out = Vec::with_capacity(self.encoded_size());", "let mut out = Vec::with_capacity(self.encoded_size() + 0);", "harmless"),
     ("h_merkle_renamed_local", "C04", "src/merkle.rs", "let mut node_count = self.levels[0].len();", "let mut node_count: usize = self.levels[0].len();", "harmless"),
